@@ -55,3 +55,19 @@ Proof.
                       (Z.of_nat (length (snd (split_bytes bytes [])))) sch) as [r [s [H _]]].
   exists r, s. exact H.
 Qed.
+
+(* the table of an Ok result is finish of the fold of the recogniser over the lines *)
+Lemma table_spec : forall (lines : list rle) (tail : Z) (sch : list Z) p s,
+  Forall (fun l => cllen l <= HALF_CAP) lines ->
+  drive_c lines tail sch = Ret (ROk p, s) ->
+  fold_recog rle pst recog_pst lineno_pst init_pst lines = inl p /\
+  table_of (ROk p) =
+  match fold_recog rle pst recog_pst lineno_pst init_pst lines with
+  | inl q => obind (finish q) (fun t => Ret (Some t))
+  | inr _ => Ret None
+  end.
+Proof.
+  intros lines tail sch p s Hs H.
+  pose proof (ok_is_fold rle cllen pst init_pst recog_pst bump_pst lineno_pst cllen_pos lines tail sch p s Hs H) as F.
+  split; [exact F|]. rewrite F. reflexivity.
+Qed.
